@@ -2,7 +2,7 @@
 // (clause, detail).  A clause name starts with the monitor name.
 #![allow(dead_code)]
 use crate::record::*;
-use crate::scenario::Scenario;
+use crate::scenario::{Cc, Scenario};
 use crate::wire::{self, Kind, F};
 use std::collections::{BTreeMap, BTreeSet, HashMap};
 
@@ -1405,6 +1405,65 @@ pub fn mon_inflight(_scn: &Scenario, r: &Record, check_exact: bool, check_gate: 
 
 pub fn mon_sendgate(scn: &Scenario, r: &Record, out: &mut V) {
     mon_inflight(scn, r, false, true, out);
+    mon_cc_reductions(scn, r, out);
+}
+
+/// CUBIC, end to end: a loss shrinks the window at most once per round trip (RFC 9002 7.3.1: a
+/// recovery period starts with the reduction; the loss of a packet that was sent before the period
+/// started does not start another one). Read off the endpoint's own metrics events: two decreases of
+/// the congestion window at t1 < t2 violate the clause when every packet declared lost at t2 had been
+/// sent at or before t1. Decreases to the minimum window (persistent congestion, floor), decreases
+/// next to an MTU change, after a migration and anything under BBR are not judged.
+fn mon_cc_reductions(scn: &Scenario, r: &Record, out: &mut V) {
+    if scn.cc != Cc::Cubic {
+        return;
+    }
+    for ep in [CLIENT, SERVER] {
+        let mut sent_at: HashMap<(u8, u64), u64> = HashMap::new();
+        let mut cwnd: Option<u32> = None;
+        let mut last_reduction: Option<u64> = None;
+        let mut lost_now: Vec<(u8, u64)> = Vec::new();
+        let mut lost_t = 0u64;
+        let mut mtu_t = u64::MAX;
+        let mut mds: u32 = 1200;
+        for e in r.events.iter().filter(|e| e.ep == ep) {
+            match &e.ev {
+                Ev::ActivePathUpdated => return,
+                Ev::PacketSent { space, pn, .. } => {
+                    sent_at.insert((*space, *pn), e.t);
+                }
+                Ev::MtuUpdated { mtu, .. } => {
+                    mtu_t = e.t;
+                    mds = *mtu as u32;
+                }
+                Ev::PacketLost { space, pn, mtu_probe, .. } => {
+                    if e.t != lost_t {
+                        lost_now.clear();
+                        lost_t = e.t;
+                    }
+                    if !*mtu_probe {
+                        lost_now.push((*space, *pn));
+                    }
+                }
+                Ev::Recovery { cwnd: c, path, .. } if *path == 0 => {
+                    if let Some(prev) = cwnd {
+                        let reduced = *c < prev && e.t != mtu_t && *c > 2 * mds;
+                        if reduced {
+                            if let Some(t1) = last_reduction {
+                                let causes: Vec<&(u8, u64)> = lost_now.iter().filter(|_| lost_t == e.t).collect();
+                                if !causes.is_empty() && causes.iter().all(|k| sent_at.get(k).map_or(false, |t| *t <= t1)) && e.t > t1 {
+                                    v(out, "cc.second_reduction_in_recovery", format!("{} reduced its congestion window {} -> {} at {} us for the loss of {:?}, all sent at or before its previous reduction at {} us (one recovery period = at most one reduction)", epn(ep), prev, c, e.t, causes, t1));
+                                }
+                            }
+                            last_reduction = Some(e.t);
+                        }
+                    }
+                    cwnd = Some(*c);
+                }
+                _ => {}
+            }
+        }
+    }
 }
 
 // ------------------------------------------------------------------------------------------
